@@ -83,10 +83,10 @@ HeaderOk(h, v) ==
              [] v \in {"dupgood", "dupgb", "dupbg"}                           -> "either" )
 
 \* methods are the tokens themselves; RFC 9110 9.1: "The method token is case-sensitive"
-Methods == {"GET", "POST", "HEAD", "PUT", "OPTIONS", "get"}
-\* ws_upper = /WS, ws_slash = /ws/ : other paths (paths are case-sensitive); ws_query = /ws?x=1 : whether a query
-\* component is still "a GET for /ws" is not decided by the property
-Paths == {"ws", "health", "version", "other", "ws_upper", "ws_slash", "ws_query"}
+Methods == {"GET", "POST", "HEAD", "PUT", "DELETE", "OPTIONS", "PATCH", "CONNECT", "TRACE", "get"}
+\* ws_upper = /WS, ws_slash = /ws/, ws_nested = /x/ws : other paths (paths are case-sensitive octet strings);
+\* ws_query = /ws?x=1 : whether a query component is still "a GET for /ws" is not decided by the property
+Paths == {"ws", "health", "version", "other", "ws_upper", "ws_slash", "ws_nested", "ws_query"}
 PathClass(p) == CASE p \in {"ws", "ws_query"} -> "ws"
                   [] p = "health"  -> "health"
                   [] p = "version" -> "version"
@@ -94,8 +94,11 @@ PathClass(p) == CASE p \in {"ws", "ws_query"} -> "ws"
 
 Requests == [method : Methods, path : Paths, ext : BOOLEAN,
              h : { f \in [HeaderNames -> BaseVariants \cup {"padded"}] : \A x \in HeaderNames : f[x] \in VariantsOf(x) }]
-\* backend = "none": the fallback is the configured 404 page
-Cfgs == [psk : BOOLEAN, obfs : BOOLEAN, backend : {"none"}]
+\* backend = "none": the fallback is the configured 404 page; "echo": the fallback is proxying to a backend (the
+\* harness's local HTTP server, whose answer depends on method and headers of the request it receives and reports
+\* the request target it saw).  The table does not depend on it: the unknown-path twin is the reference either way.
+Backends == {"none", "echo"}
+Cfgs == [psk : BOOLEAN, obfs : BOOLEAN, backend : Backends]
 
 Valid == [method |-> "GET", path |-> "ws", ext |-> TRUE, h |-> [x \in HeaderNames |-> "exact"]]
 
